@@ -1,2 +1,40 @@
-(* C02 -- statement file; proofs in Sess/ *)
-From SV Require Import Sess.Model.
+(* C02 -- message reassembly is independent of how the byte stream is chunked. *)
+From Coq Require Import ZArith NArith List.
+From Coq.Strings Require Import Byte.
+From SV Require Import Base.Bytes Base.Py Msg.Types Msg.Decode Sess.Model Sess.Chunk.
+Import ListNotations.
+
+(* For ANY byte stream whose delivery in one piece succeeds, from any open state (client or server,
+   with or without held-back octets), and ANY way of cutting it into consecutive chunks (empty chunks,
+   single octets, cuts inside headers, several messages per chunk): feeding the chunks in order
+   succeeds, returns overall exactly the same messages in the same order, and ends in exactly the same
+   session state (protocol state, bookkeeping and held-back octets). *)
+Theorem C02_chunking_is_unobservable :
+  forall d chunks s s' ms, s_state s <> CLOSED -> chunks <> [] ->
+  receive d s (concat chunks) = (s', ORetMsgs ms) ->
+  receive_chunks d s chunks = Some (s', ms).
+Proof. exact chunk_independent. Qed.
+
+Theorem C02_two_chunks :
+  forall d s a b s2 ms, s_state s <> CLOSED -> receive d s (a ++ b) = (s2, ORetMsgs ms) ->
+  exists s1 ms1 ms2,
+    receive d s a = (s1, ORetMsgs ms1) /\ receive d s1 b = (s2, ORetMsgs ms2) /\ ms = ms1 ++ ms2.
+Proof. exact receive_two_chunks. Qed.
+
+(* the buffered and the direct code path compute the same thing: parse (held-back ++ data), keep
+   the remainder, process the messages *)
+Theorem C02_both_receive_paths_agree :
+  forall d s data s' ms, s_state s <> CLOSED ->
+  (receive d s data = (s', ORetMsgs ms) <->
+   exists rest, parse d (s_in s ++ data) = Ok (ms, rest) /\ process_all (set_in s rest) ms = (s', None)).
+Proof. exact receive_ok. Qed.
+
+(* a decoded message does not depend on what follows it in the stream *)
+Theorem C02_decoding_ignores_what_follows :
+  forall d r x m r', unpack_message d r = Ok (m, r') -> unpack_message d (r ++ x) = Ok (m, r' ++ x).
+Proof. exact unpack_message_prefix. Qed.
+
+Print Assumptions C02_chunking_is_unobservable.
+Print Assumptions C02_two_chunks.
+Print Assumptions C02_both_receive_paths_agree.
+Print Assumptions C02_decoding_ignores_what_follows.
